@@ -2183,10 +2183,12 @@ static cfg_value_t *cfg_opt_getval(cfg_opt_t *opt, unsigned int index)
 	if (opt->simple_value.ptr)
 		val = (cfg_value_t *)opt->simple_value.ptr;
 	else {
-		if (is_set(CFGF_RESET, opt->flags)) {
-			cfg_free_value(opt);
-			opt->flags &= ~CFGF_RESET;
-		}
+		/*
+		 * The defaults become ordinary values, the one addressed by
+		 * index is replaced.  (Dropping them all here made a set at
+		 * index 1 of a list of three defaults store at index 0.)
+		 */
+		opt->flags &= ~CFGF_RESET;
 
 		if (index >= opt->nvalues)
 			val = cfg_addval(opt);
